@@ -328,7 +328,13 @@ pub(crate) fn mode(entry: &VfsEntry, octal: u32, sym: &str) -> RvResult<u32> {
     let mut mode = entry.mode();
     let mut group = 0;
     let mut op = '0';
+    let mut apply = true;
     let mut chars: Vec<char> = sym.chars().rev().collect();
+
+    // Links themselves are never changed
+    if entry.is_symlink() {
+        return Ok(mode);
+    }
 
     let mut state = State::Target;
     while let Some(mut c) = chars.pop() {
@@ -336,13 +342,14 @@ pub(crate) fn mode(entry: &VfsEntry, octal: u32, sym: &str) -> RvResult<u32> {
             State::Target => {
                 group = 0; // reset group for next chmod
                 op = '0'; // reset op for next chmod
+                apply = true; // reset target match for next chmod
 
                 loop {
                     if c != 'd' && c != 'f' && c != 'a' && c != ':' {
                         return Err(VfsError::InvalidChmodTarget(sym.to_string()).into());
                     }
-                    if entry.is_symlink() || (c == 'd' && !entry.is_dir()) || (c == 'f' && !entry.is_file()) {
-                        return Ok(mode); // target mismatch so just return the original mode
+                    if (c == 'd' && !entry.is_dir()) || (c == 'f' && !entry.is_file()) {
+                        apply = false; // target mismatch so skip this clause only
                     } else if c == ':' {
                         state = State::Group;
                         break;
@@ -403,10 +410,12 @@ pub(crate) fn mode(entry: &VfsEntry, octal: u32, sym: &str) -> RvResult<u32> {
                 }
 
                 // Process permission
-                match op {
-                    '-' => mode &= !(group & perm),
-                    '+' => mode |= group & perm,
-                    _ => mode = (!group & mode) | (group & perm),
+                if apply {
+                    match op {
+                        '-' => mode &= !(group & perm),
+                        '+' => mode |= group & perm,
+                        _ => mode = (!group & mode) | (group & perm),
+                    }
                 }
             },
         }
